@@ -1,5 +1,6 @@
 import GoflowModel.Engine.Model
 import GoflowModel.Engine.Truncate
+import GoflowModel.Engine.Persist
 import GoflowModel.Driver.Util
 /-
 Line protocol for the engine model:
@@ -184,6 +185,11 @@ def handle : List String → Option String
       let k ← parseResume call
       let s ← parseSession session
       some (showResult (resume a o orc s k))
+  | ["prt", session] => do
+    let s ← parseSession session
+    some (match restore (persist s) with
+      | some s' => "ok " ++ showSession s'
+      | none => "fail")
   | ["trunc", n, s] => do
     let s ← Driver.decL s
     some ("ok " ++ Driver.encL (Truncate.truncate s n.toNat!))
